@@ -113,6 +113,13 @@ def run_property(prop, tier, repo, replay=None):
     import importlib
     mod = importlib.import_module("sa.rules." + prop.lower())
     ctx = Ctx(prop, repo, tier)
+    # per-run memo tables (a scratch copy may be re-analysed after an edit within one process)
+    from . import cfront as _cf, ceffects as _ce, effects as _ef
+    _cf._cf_cache.clear()
+    _ce._memo.clear()
+    _ef._proto_cache.clear()
+    _ef._def_cache.clear()
+    _ef._eff_cache.clear()
     try:
         mod.check(ctx)
         floors = getattr(mod, "FLOORS", {})
